@@ -128,6 +128,23 @@ CHECKS = {
              "Elias code lengths, block count, last-block size) or from the stream header (PFOR width byte, adaptive "
              "type byte, bytes written).",
         ref="DESIGN.md 4/C16", technique="TLA+ ground-truth functions (Limbs/StoreTrace) + trace validation of reported metadata"),
+    "C15": dict(
+        text="Purity.tla models the hidden context (stack residue, heap residue, previous call) and enumerates every "
+             "schedule of perturbations up to depth 2/3 (a callee that reads residue is the negative control); the "
+             "driver realises each schedule (96 KiB stack painting incl. the call's own element count replicated, heap "
+             "bin seeding with M_PERTURB, previous calls of the same/another API and count) before each of 28 "
+             "representative calls, in two processes and in the optimised and unoptimised tiers; PurityTrace.tla keeps "
+             "a memo of the first result per call class and rejects any later execution whose bytes, length or decoded "
+             "values differ; thorough adds valgrind memcheck (Uninit events).",
+        ref="DESIGN.md 4/C15", technique="TLA+ context model + TLC-enumerated perturbation schedules + stateful (memo) TLC trace validation"),
+    "C17": dict(
+        text="Threads.tla checks over all interleavings of Begin/End steps of 3 threads that with per-call scratch every "
+             "call returns F(args) (a shared scratch buffer is the negative control). 16 real threads run 15 call "
+             "classes on shared read-only inputs and private outputs in barrier-released bursts; every thread's log "
+             "(own sequence numbers, no cross-thread ordering assumed) is validated against the sequential results by "
+             "ThreadsTrace.tla; the same driver under ThreadSanitizer turns any race report into a Race event, which "
+             "is not an action of the specification.",
+        ref="DESIGN.md 4/C17", technique="TLA+ interleaving model (TLC) + per-thread TLC trace validation + ThreadSanitizer reports as trace events"),
     "C18": dict(
         text="AllocModel.tla explores object lifetimes with a fault at every allocation step of every call and checks "
              "no-leak/consistency on the recovery discipline (dropping the release step is the negative control). The "
